@@ -44,35 +44,69 @@ func runC15(c *Ctx) {
 	n0 := plainEdges(edgesMatching(b, "bin<!=>(len(p1), 0)"))
 	n1 := plainEdges(edgesMatching(b, "bin<!=>(len(p1), 1)"))
 	nEmpty, nLeaf, nNode := 0, 0, 0
+	var nodeHelper *ssa.Function
+	hashFn := fn
+	// the exits of Hash; where Hash ends in `return t.node(data[:k], data[k:])` of a helper that does the two recursive
+	// calls, that helper's exits with its parameters bound to the arguments (pre: what the call site has passed in Hash)
+	type exitIn struct {
+		fn  *ssa.Function
+		b   *ana.Builder
+		e   ana.Exit
+		pre func(gate []ana.Edge) bool
+	}
+	var items []exitIn
 	for _, e := range ana.Exits(fn) {
+		e := e
+		direct := exitIn{fn, b, e, func(gate []ana.Edge) bool { return exitMustPass(fn, e, gate) }}
+		if !e.Panic {
+			var res []*ana.Term
+			for _, rv := range e.Results {
+				res = append(res, b.Of(rv, e.Instr))
+			}
+			if call := tailCall(res); call != nil {
+				if h := calleeOf(call); h != nil && h != fn && h.Blocks != nil && ana.InRepo(h) && len(call.Args) == len(h.Params) && matches("call<*>(p0, slice(p1, 0, _), slice(p1, _, none))", call) {
+					r.Fn(ana.ShortFunc(h))
+					hb := c.boundBuilder(call)
+					for _, e2 := range ana.Exits(h) {
+						items = append(items, exitIn{h, hb, e2, direct.pre})
+					}
+					nodeHelper = h
+					continue
+				}
+			}
+		}
+		items = append(items, direct)
+	}
+	for _, it := range items {
+		fnX, bX, e := it.fn, it.b, it.e
 		if e.Panic {
 			r.Viol("C15.shape.no-panic", c.ipos(e.Instr), "explicit panic in Hash")
 			continue
 		}
-		vt, et := b.Of(e.Results[0], e.Instr), b.Of(e.Results[1], e.Instr)
+		vt, et := bX.Of(e.Results[0], e.Instr), bX.Of(e.Results[1], e.Instr)
 		blk := e.Instr.Block()
 		_ = blk
 		switch {
 		case matches("call<(hash.Hash).Sum>(call<(crypto.Hash).New>(load(faddr<#0>(p0))), nil)", vt) && et.Is("nil"):
 			// the empty root computed in place
 			nEmpty++
-			r.Check(exitMustPass(fn, e, e0), "C15.shape.empty", c.ipos(e.Instr), "empty root returned exactly under len(data)==0")
+			r.Check(it.pre(e0), "C15.shape.empty", c.ipos(e.Instr), "empty root returned exactly under len(data)==0")
 			r.Check(true, "C15.shape.empty-hash", c.ipos(e.Instr), "empty root = t.hash.New().Sum(nil) with nothing written: %s", vt)
 		case matches("call<*>(p0)", vt) && et.Is("nil"):
 			nEmpty++
 			emptyFn = calleeOf(vt)
-			r.Check(exitMustPass(fn, e, e0), "C15.shape.empty", c.ipos(e.Instr), "empty root returned exactly under len(data)==0")
+			r.Check(it.pre(e0), "C15.shape.empty", c.ipos(e.Instr), "empty root returned exactly under len(data)==0")
 		case et.Is("nil") && leafInPlace(c, vt):
 			// the single leaf marshalled by Hash itself and hashed in place or by a helper that takes the bytes
 			nLeaf++
-			mOK := plainEdges(edgesMatching(b, "bin<==>(ext#1(call<(encoding.BinaryMarshaler).MarshalBinary>(load(iaddr(p1, 0)))), nil)"))
-			r.Check(exitMustPass(fn, e, e1) && exitMustPass(fn, e, n0) && exitMustPass(fn, e, mOK), "C15.shape.single-leaf", c.ipos(e.Instr), "leaf hash of data[0] returned exactly under len(data)==1, after MarshalBinary succeeded")
+			mOK := plainEdges(edgesMatching(bX, "bin<==>(ext#1(call<(encoding.BinaryMarshaler).MarshalBinary>(load(iaddr(p1, 0)))), nil)"))
+			r.Check(it.pre(e1) && it.pre(n0) && exitMustPass(fnX, e, mOK), "C15.shape.single-leaf", c.ipos(e.Instr), "leaf hash of data[0] returned exactly under len(data)==1, after MarshalBinary succeeded")
 			r.OK("C15.shape.leaf", c.ipos(e.Instr), "leaf = t.hash: Write([0x00]), Write(marshalled leaf), Sum(nil), only after MarshalBinary succeeded (decided on the expanded term)")
 		case matches("ext#0(call<*>(p0, load(iaddr(p1, 0))))", vt):
 			nLeaf++
 			leafFn = calleeOf(vt)
 			_, okE := ana.Match("ext#1(call<*>(p0, load(iaddr(p1, 0))))", et)
-			r.Check(exitMustPass(fn, e, e1) && exitMustPass(fn, e, n0) && okE && calleeOf(et) == leafFn, "C15.shape.single-leaf", c.ipos(e.Instr), "leaf hash of data[0] (value and error of the same call) returned exactly under len(data)==1")
+			r.Check(it.pre(e1) && it.pre(n0) && okE && calleeOf(et) == leafFn, "C15.shape.single-leaf", c.ipos(e.Instr), "leaf hash of data[0] (value and error of the same call) returned exactly under len(data)==1")
 		case et.Is("nil"):
 			nNode++
 			pat := "call<*>(p0, ext#0(" + self + "(p0, slice(p1, 0, $k))), ext#0(" + self + "(p0, slice(p1, $k, none))))"
@@ -84,38 +118,38 @@ func runC15(c *Ctx) {
 			nodeFn = calleeOf(vt)
 			_, okK := ana.Match("call<*>(len(p1))", bd["$k"])
 			split = calleeOf(bd["$k"])
-			r.Check(okK && split != nil && exitMustPass(fn, e, n0) && exitMustPass(fn, e, n1), "C15.shape.node", c.ipos(e.Instr), "node = H(0x01‖Hash(data[:k])‖Hash(data[k:])), k = split(len(data)), under len(data) >= 2; the two sub-slices partition the argument")
+			r.Check(okK && split != nil && it.pre(n0) && it.pre(n1), "C15.shape.node", c.ipos(e.Instr), "node = H(0x01‖Hash(data[:k])‖Hash(data[k:])), k = split(len(data)), under len(data) >= 2; the two sub-slices partition the argument")
 			// error gates
-			lE := plainEdges(edgesMatching(b, "bin<==>(ext#1("+self+"(p0, slice(p1, 0, _))), nil)"))
-			rE := plainEdges(edgesMatching(b, "bin<==>(ext#1("+self+"(p0, slice(p1, _, none))), nil)"))
-			r.Check(exitMustPass(fn, e, lE) && exitMustPass(fn, e, rE), "C15.error-discipline.both-tested", c.ipos(e.Instr), "the node hash is computed only after both recursive calls returned no error")
+			lE := plainEdges(edgesMatching(bX, "bin<==>(ext#1("+self+"(p0, slice(p1, 0, _))), nil)"))
+			rE := plainEdges(edgesMatching(bX, "bin<==>(ext#1("+self+"(p0, slice(p1, _, none))), nil)"))
+			r.Check(exitMustPass(fnX, e, lE) && exitMustPass(fnX, e, rE), "C15.error-discipline.both-tested", c.ipos(e.Instr), "the node hash is computed only after both recursive calls returned no error")
 		default:
 			// error returns: must carry a recursive call's error and a nil hash
 			// each returned error is the error of the recursive call that failed: directly, or merged by a phi whose
 			// incoming edges each come from the failure branch of the call whose error they carry
 			patL := "ext#1(" + self + "(p0, slice(p1, 0, _)))"
 			patR := "ext#1(" + self + "(p0, slice(p1, _, none)))"
-			failL := plainEdges(edgesMatching(b, "bin<!=>("+patL+", nil)"))
-			failR := plainEdges(edgesMatching(b, "bin<!=>("+patR+", nil)"))
+			failL := plainEdges(edgesMatching(bX, "bin<!=>("+patL+", nil)"))
+			failR := plainEdges(edgesMatching(bX, "bin<!=>("+patR+", nil)"))
 			okProp := false
 			mErr := "ext#1(call<(encoding.BinaryMarshaler).MarshalBinary>(load(iaddr(p1, 0))))"
 			if _, okM := ana.Match(mErr, et); okM {
 				// the single leaf's marshaling error, returned by Hash itself
-				okProp = exitMustPass(fn, e, plainEdges(edgesMatching(b, "bin<!=>("+mErr+", nil)"))) && exitMustPass(fn, e, e1)
+				okProp = exitMustPass(fnX, e, plainEdges(edgesMatching(bX, "bin<!=>("+mErr+", nil)"))) && it.pre(e1)
 			} else if _, okL := ana.Match(patL, et); okL {
-				okProp = exitMustPass(fn, e, failL)
+				okProp = exitMustPass(fnX, e, failL)
 			} else if _, okR := ana.Match(patR, et); okR {
-				okProp = exitMustPass(fn, e, failR)
+				okProp = exitMustPass(fnX, e, failR)
 			} else if phi, isPhi := e.Results[1].(*ssa.Phi); isPhi {
 				okProp = len(phi.Edges) > 0
 				for i, ev := range phi.Edges {
-					pt := b.Of(ev, phi)
+					pt := bX.Of(ev, phi)
 					edge := ana.Edge{From: phi.Block().Preds[i], To: phi.Block()}
 					switch {
 					case matches(patL, pt):
-						okProp = okProp && edgeMustPass(fn, edge, failL)
+						okProp = okProp && edgeMustPass(fnX, edge, failL)
 					case matches(patR, pt):
-						okProp = okProp && edgeMustPass(fn, edge, failR)
+						okProp = okProp && edgeMustPass(fnX, edge, failR)
 					default:
 						okProp = false
 					}
@@ -127,6 +161,15 @@ func runC15(c *Ctx) {
 	r.Check(nEmpty == 1 && nLeaf == 1 && nNode == 1, "C15.shape.exits", c.P.Pos(fn.Pos()), "exactly one empty, one leaf and one node exit (found %d/%d/%d)", nEmpty, nLeaf, nNode)
 	// left recursion before right, right only after left succeeded
 	var lc, rc ssa.CallInstruction
+	if nodeHelper != nil {
+		// the recursive calls sit in the node helper: same rule there, in Hash's vocabulary
+		for _, it := range items {
+			if it.fn == nodeHelper {
+				fn, b = it.fn, it.b
+				break
+			}
+		}
+	}
 	for _, ci := range ana.Calls(fn) {
 		t := b.CallTermAt(ci)
 		if matches(self+"(p0, slice(p1, 0, _))", t) {
@@ -230,7 +273,7 @@ func runC15(c *Ctx) {
 		}
 	}
 
-	pureScan(c, "C15.pure.no-package-state", fn)
+	pureScan(c, "C15.pure.no-package-state", hashFn)
 
 	// no input writes: every function of the package
 	for _, pf := range c.P.RepoFuncs("pkg/merkle") {
